@@ -502,7 +502,7 @@ func coordinate(cfg *Config) int {
 	deadline := *flagDeadline
 	if deadline == 0 {
 		if tier == "quick" {
-			deadline = 8 * time.Minute
+			deadline = 20 * time.Minute // a safety net only: the quick tier is sized for one to two minutes on an idle machine
 		} else {
 			deadline = 60 * time.Minute
 		}
